@@ -22,10 +22,10 @@ Definition m_mentions (w : nat) (x : mout) : Prop :=
   end.
 (* request w has not ended yet *)
 Definition m_pending (w : nat) (o : list mout) : Prop := forall x, In x o -> ~ m_mentions w x.
-(* a request under key k is still registered: it was made and has neither returned nor failed
-   (a cancelled request stays registered - CancelledError is not caught in _receive) *)
+(* a request under key k is outstanding: it was made and has not ended (returned, failed, timed out
+   or been cancelled) *)
 Definition m_live (h : list mev) (o : list mout) (k : mkey) : Prop :=
-  exists w, In (MReq w k) h /\ forall x, In x o -> m_mentions w x -> x = MCancelled w.
+  exists w, In (MReq w k) h /\ m_pending w o.
 (* identifiers are not reused: uuid4 for generated identifiers; for "type_<n>" keys this is the
    protocol's promise that only one such exchange is in flight *)
 Definition m_fresh (h : list mev) : Prop := NoDup (m_req_keys h) /\ NoDup (m_req_waiters h).
